@@ -44,6 +44,29 @@ CHECKS = {
         "depth 14 + 40 random sessions; thorough: 4 pairs + 40000 + 400."),
   technique="TLC model checking + spec-history replay + TLC trace validation",
  ),
+ "C17": dict(
+  level="model_checking",
+  design_ref="DESIGN.md section 5, C17",
+  text=("CacheSpec says every memoised call returns what a fresh "
+        "computation returns (Fresh is injective on values, dtypes and "
+        "shapes, not on memory layout or passing style) and is the oracle; "
+        "CacheImpl transcribes the key function (typed/untyped), the FIFO "
+        "eviction and result aliasing, and TLC checks ReturnsFresh and "
+        "dictionary/key-list consistency over an adversarial argument pool "
+        "(same bytes split differently, other dtype, other shape, strided, "
+        "keyword) for all call/mutate histories in the bound. Every "
+        "schedule of calls up to the depth bound is executed on the real "
+        "memoised functions with capacity 2 and 3 and compared with the "
+        "undecorated functions; long sessions run at capacity 100; "
+        "FileHashSpec histories run on real files; every array the dataset "
+        "interface hands out (dict/hdf5/hierarchy/basin) is modified in "
+        "place and re-read."),
+  note=("md5 assumed injective; file modifications are natural writes (size "
+        "or mtime_ns changes); quick: schedules of depth 3 over 4 functions "
+        "x 8 pool members, thorough depth 4; results compared by value, "
+        "shape and dtype (or same exception type)."),
+  technique="TLC model checking + spec-schedule replay against undecorated functions",
+ ),
 }
 
 NOT_YET = "check not built yet (work in progress; see DESIGN.md section 5)"
